@@ -27,6 +27,7 @@ class Ctx:
         self.queries = 0
         self.eq_seen = set()
         self.havocked = False
+        self.fresh_mode = False
         self.val_syms = []
         self.awaits = []
 
@@ -44,10 +45,24 @@ class Ctx:
     def check(self, *fs):
         import time
         t = time.time()
-        r = self.solver.check(*fs)
+        if self.fresh_mode:
+            # sequence-heavy jobs: z3's incremental solver degrades badly on the seq theory; a fresh solver per
+            # query decides the same formulas in milliseconds
+            s = z3.Solver()
+            s.set("timeout", 10000)
+            s.add(self.solver.assertions())
+            s.add(*fs)
+            r = s.check()
+            if r == z3.sat:
+                self._last_model = s.model()
+        else:
+            r = self.solver.check(*fs)
         self.solver_s += time.time() - t
         self.queries += 1
         return r
+
+    def model(self):
+        return self._last_model if self.fresh_mode else self.solver.model()
 
     def choose(self, n, label=""):
         """n-way nondeterministic choice (environment answer or undecided branch).  Decisions are replayed
@@ -75,8 +90,14 @@ class Ctx:
             return True
         if z3.is_false(cond):
             return False
-        can_t = self.check(cond) == z3.sat
-        can_f = self.check(z3.Not(cond)) == z3.sat
+        rt = self.check(cond)
+        if rt == z3.unknown:
+            rt = self.recheck(cond)
+        rf = self.check(z3.Not(cond))
+        if rf == z3.unknown:
+            rf = self.recheck(z3.Not(cond))
+        can_t = rt == z3.sat
+        can_f = rf == z3.sat
         if can_t and not can_f:
             return True
         if can_f and not can_t:
@@ -91,9 +112,56 @@ class Ctx:
         return False
 
     def valid(self, f):
-        """is f implied by the path condition?  -> (bool, z3 result)"""
+        """is f implied by the path condition?  -> (bool, z3 result).  z3 is asked first; a query it leaves
+        `unknown` (sequence theory) is handed to /usr/bin/cvc5 --strings-exp as SMT-LIB text (second back end)"""
         r = self.check(z3.Not(f))
+        if r == z3.unknown:
+            r = self.recheck(z3.Not(f))
         return r == z3.unsat, r
+
+    def recheck(self, extra):
+        """second opinions on a query the incremental solver left unknown: a fresh (non-incremental) z3, then cvc5"""
+        import time
+        t = time.time()
+        s = z3.Solver()
+        s.set("timeout", 10000)
+        s.add(self.solver.assertions())
+        s.add(extra)
+        r = s.check()
+        self.solver_s += time.time() - t
+        self.fresh_z3 = getattr(self, "fresh_z3", 0) + 1
+        if r == z3.unknown:
+            r2 = self.cvc5_check(extra)
+            if r2 is not None:
+                r = r2
+        return r
+
+    def cvc5_check(self, extra):
+        import subprocess, tempfile, os
+        s = z3.Solver()
+        s.add(self.solver.assertions())
+        s.add(extra)
+        text = s.to_smt2()
+        dump = os.environ.get("PYVC_DUMP")
+        if dump:
+            self.__class__.dump_n = getattr(self.__class__, "dump_n", 0) + 1
+            open(os.path.join(dump, f"q{self.__class__.dump_n}.smt2"), "w").write(text)
+        try:
+            with tempfile.NamedTemporaryFile("w", suffix=".smt2", delete=False) as fh:
+                fh.write("(set-logic ALL)\n" + text)
+                path = fh.name
+            p = subprocess.run(["/usr/bin/cvc5", "--strings-exp", "--tlimit=20000", path], capture_output=True, text=True, timeout=30)
+            os.unlink(path)
+        except Exception:
+            return None
+        out = p.stdout.strip().splitlines()
+        self.cvc5_queries = getattr(self, "cvc5_queries", 0) + 1
+        if out and out[0] == "unsat":
+            self.cvc5_unsat = getattr(self, "cvc5_unsat", 0) + 1
+            return z3.unsat
+        if out and out[0] == "sat":
+            return z3.sat
+        return None
 
     def mk_eq(self, a, b):
         """eq(a,b) for user `==`: symmetric by construction, reflexive via instantiated axiom (A7)"""
@@ -459,7 +527,7 @@ class NativeIter:
             i = as_int(self.idx)
             if ctx.branch(i < z3.Length(s)):
                 self.idx = mk_int(i + 1)
-                return True, Opaque(z3.simplify(s[i]))
+                return True, Opaque(s[i])
             return False, None
         if self.kind == "enumerate":
             ok, v = self.data.next_(ctx)
